@@ -25,7 +25,8 @@ type field struct {
 	Perm string `json:"perm"` // rw create update none ro ignore
 	Auto bool   `json:"auto"`
 	Key  bool   `json:"key"`
-	Mig  bool   `json:"mig"` // -:migration (column created by raw DDL)
+	Mig  bool   `json:"mig"`  // -:migration (column created by raw DDL)
+	Dflt bool   `json:"dflt"` // the database assigns a default (column DEFAULT 5, tag default:5)
 }
 
 type payItem struct {
@@ -74,6 +75,9 @@ func tagOf(f field) string {
 	if f.Mig {
 		parts = append(parts, "-:migration")
 	}
+	if f.Dflt {
+		parts = append(parts, "default:5")
+	}
 	return `gorm:"` + strings.Join(parts, ";") + `"`
 }
 
@@ -109,9 +113,12 @@ func (e *env) setup(m *model) error {
 		if f.Perm == "ignore" {
 			continue // an ignored field has no column
 		}
-		if f.Key {
+		switch {
+		case f.Key:
 			cols = append(cols, f.Col+" integer primary key")
-		} else {
+		case f.Dflt:
+			cols = append(cols, f.Col+" integer default 5")
+		default:
 			cols = append(cols, f.Col+" integer")
 		}
 	}
@@ -246,7 +253,7 @@ func (e *env) run(m *model, w write) (hx.M, error) {
 		v := payVal(f, p.Zero, k)
 		if f.Key {
 			v = 2
-			if w.Op == "create" || w.Op == "create_map" {
+			if w.Op == "create" || w.Op == "create_map" || w.Op == "create_slice" {
 				v = 9
 				if p.Zero {
 					v = 0
@@ -280,6 +287,14 @@ func (e *env) run(m *model, w write) (hx.M, error) {
 		res = tx.Save(pv.Interface())
 	case "create":
 		res = tx.Create(pv.Interface())
+	case "create_slice":
+		// first row all zero, second row carries the payload
+		sl := reflect.MakeSlice(reflect.SliceOf(m.typ), 2, 2)
+		sl.Index(1).Set(pv.Elem())
+		sl.Index(1).FieldByName("ID").SetInt(0)
+		ptr := reflect.New(sl.Type())
+		ptr.Elem().Set(sl)
+		res = tx.Create(ptr.Interface())
 	case "create_map":
 		res = tx.Model(reflect.New(m.typ).Interface()).Create(pm)
 	case "upsert":
@@ -309,7 +324,10 @@ func (e *env) run(m *model, w write) (hx.M, error) {
 		b, existed := before[id]
 		for c, v := range a {
 			if !existed {
-				if v != nil {
+				if id != maxNew(after, before) {
+					continue // slice create: the row carrying the payload is the last one
+				}
+				if v != nil && !(m.byName(colName[c]).Dflt && fmt.Sprint(v) == "5") {
 					newRow = append(newRow, colName[c])
 				}
 				continue
@@ -338,6 +356,16 @@ func (e *env) run(m *model, w write) (hx.M, error) {
 	return hx.M{"changed": changed, "others": others, "newrow": newRow, "autonow": autoNow, "err": errs, "nrows": len(after)}, nil
 }
 
+func maxNew(after, before map[int64]map[string]interface{}) int64 {
+	var mx int64
+	for id := range after {
+		if _, ok := before[id]; !ok && id > mx {
+			mx = id
+		}
+	}
+	return mx
+}
+
 func nzs(x []string) []string {
 	if x == nil {
 		return []string{}
@@ -348,7 +376,7 @@ func nzs(x []string) []string {
 func event(caseNo int, m *model, w write, o hx.M) hx.M {
 	fs := []hx.M{}
 	for _, f := range m.fields {
-		fs = append(fs, hx.M{"name": f.Name, "perm": f.Perm, "auto": f.Auto, "key": f.Key})
+		fs = append(fs, hx.M{"name": f.Name, "perm": f.Perm, "auto": f.Auto, "key": f.Key, "dflt": f.Dflt})
 	}
 	pay := []hx.M{}
 	for _, p := range w.Pay {
@@ -372,6 +400,9 @@ func randModel(r *rand.Rand) *model {
 	if r.Intn(2) == 0 {
 		fs = append(fs, field{Name: "Upd", Col: "upd", Perm: "rw", Auto: true})
 	}
+	if r.Intn(2) == 0 {
+		fs = append(fs, field{Name: "D1", Col: "d1", Perm: perms[r.Intn(len(perms)-1)], Dflt: true})
+	}
 	return newModel(fs)
 }
 
@@ -386,7 +417,7 @@ func subset(r *rand.Rand, names []string, p int) []string {
 }
 
 func randWrite(r *rand.Rand, m *model) write {
-	ops := []string{"updates_struct", "updates_map", "update", "ucols_struct", "ucols_map", "ucol", "save", "create", "create_map", "upsert"}
+	ops := []string{"updates_struct", "updates_map", "update", "ucols_struct", "ucols_map", "ucol", "save", "create", "create_slice", "create_map", "upsert"}
 	w := write{Op: ops[r.Intn(len(ops))], ColSpelling: r.Intn(2) == 0}
 	var names []string
 	for _, f := range m.fields {
@@ -394,9 +425,9 @@ func randWrite(r *rand.Rand, m *model) write {
 			names = append(names, f.Name)
 		}
 	}
-	structPay := w.Op == "updates_struct" || w.Op == "ucols_struct" || w.Op == "save" || w.Op == "create" || w.Op == "upsert"
+	structPay := w.Op == "updates_struct" || w.Op == "ucols_struct" || w.Op == "save" || w.Op == "create" || w.Op == "create_slice" || w.Op == "upsert"
 	if structPay {
-		w.Pay = append(w.Pay, payItem{F: "ID", Zero: w.Op == "create" && r.Intn(2) == 0})
+		w.Pay = append(w.Pay, payItem{F: "ID", Zero: (w.Op == "create" && r.Intn(2) == 0) || w.Op == "create_slice"})
 		for _, n := range names {
 			w.Pay = append(w.Pay, payItem{F: n, Zero: r.Intn(3) == 0})
 		}
@@ -422,7 +453,7 @@ func randWrite(r *rand.Rand, m *model) write {
 	if r.Intn(3) == 0 {
 		w.Omit = subset(r, names, 3)
 	}
-	if w.Op == "create_map" || w.Op == "create" || w.Op == "upsert" {
+	if w.Op == "create_map" || w.Op == "create" || w.Op == "create_slice" || w.Op == "upsert" {
 		w.Star = false
 	}
 	if w.Op == "upsert" { // a Select without the key would turn the upsert into a plain insert
